@@ -94,10 +94,7 @@ def run(chk):
         if it == 0:
             chk.sample({"append_code": {"counter": n, "callee": [show_line(l) for l in callee]}})
     # ---- known-finding exemplars (corpus runs first) ----
-    corpus = []
-    for k in chk.known:
-        if k.get("exemplar"):
-            corpus.append((k["exemplar"], ()))
+    corpus = [(c, ()) for c in chk.corpus()]
     sources = corpus + [(s, ()) for s in prog.repo_test_inputs()]
     for i in range(chk.scale(250, 3000)):
         sources.append((gen_c.program(rng, placement=rng.choice(["zp", "mixed", "abs"]), shorts=rng.random() < 0.3,
